@@ -100,6 +100,33 @@ Theorem C08_node_hash_values_are_translated :
 Proof. repeat split; reflexivity. Qed.
 Print Assumptions C08_node_hash_values_are_translated.
 
+(* ---------- column caches across processes ----------
+   After a request that generated or loaded a shard, a NEW process over the same folders (empty RAM table) that asks for any key of that
+   shard reads the shard from disk: it runs the hash pass of the shard's entries (to form the disk key) and NO value pass, returns the value
+   of the uncached field and adds nothing to the disk store.  Over the REGENERATED CachedColumn.evaluate. *)
+Theorem C08_column_restart_reads_shard :
+  forall (sorted : list val -> list val) (get_hash : nat -> val -> option nhash) (get_value : nat -> val -> option val)
+         (h : nat -> val -> nhash) (v : nat -> val -> val),
+  (forall c k x, get_hash c k = Some x -> x = h c k) ->
+  (forall c k x, get_value c k = Some x -> x = v c k) ->
+  (forall c k c' k', hpyeq (h c k) (h c' k') = true -> v c k = v c' k') ->
+  (forall c k c' ks, h c k <> ColumnsFacts.compound (map (h c') ks)) ->
+  forall col size key keys st v0 st' ev ks c i,
+  ColumnsFacts.exact_key pyeq key -> ColumnsGen.get_shard pyeq sorted size key keys = inr (ks, c, i) ->
+  ColStore.ram_get hpyeq st (h col key) = None ->
+  Columns.column_request hpyeq heqb pyeq sorted get_hash get_value col size key keys st = (ColStore.COk v0, st', ev) ->
+  ColumnsFacts.Inv h v st ->
+  forall key' keys' c' i', ColumnsFacts.exact_key pyeq key' -> In key' ks -> ColumnsGen.get_shard pyeq sorted size key' keys' = inr (ks, c', i') ->
+  (forall k, get_hash col k = Some (h col k)) ->
+  exists st'', Columns.column_request hpyeq heqb pyeq sorted get_hash get_value col size key' keys' (ColStore.new_process st')
+               = (ColStore.COk (v col key'), st'', ColStore.CHash col key' :: ColStore.CKeyReq :: ColStore.CKeysReq :: map (ColStore.CHash col) ks)
+            /\ ColStore.disk st'' = ColStore.disk st'.
+Proof.
+  intros sorted get_hash get_value h v H1 H2 H3 H4.
+  exact (ColumnsFacts.column_restart_reads_shard hpyeq heqb pyeq sorted get_hash get_value h v EqFacts.hpyeq_refl EqFacts.heqb_eq EqFacts.pyeq_refl H1 H2 H3 H4 EqFacts.heqb_refl).
+Qed.
+Print Assumptions C08_column_restart_reads_shard.
+
 (* BEGIN PINNED FINGERPRINTS (tools/pin_shapes.py) *)
 (* The functions and classes of /repo that hand-written parts of the model mirror (Model/VM.v, NameLevel.v, Loopback.v) and the glue around the modelled core
    this property is anchored in: the fingerprints (sha256 of the normalised source, comments and docstrings dropped) are regenerated on every run; an edit of one
